@@ -33,7 +33,7 @@ def _build(modname):
     pxd = src.with_suffix(".pxd")
     if pxd.exists():
         data += pxd.read_bytes()
-    h = hashlib.sha256(data).hexdigest()[:16]
+    h = hashlib.sha256(data + b"|directives-v2").hexdigest()[:16]
     outdir = EXT / h
     out = outdir / (modname.split(".")[-1] + SUFFIX)
     if out.exists():
@@ -44,7 +44,9 @@ def _build(modname):
         cmd = ["g++", "-shared", "-fPIC", "-O1", f"-I{inc}", str(src), "-o", str(out)]
     else:
         csrc = outdir / (src.stem + ".c")
-        r = subprocess.run([sys.executable, "-m", "cython", "-3", str(src), "-o", str(csrc)], capture_output=True, text=True)
+        # the same compiler directives as /repo/setup.py
+        r = subprocess.run([sys.executable, "-m", "cython", "-3", "-X", "boundscheck=False", "-X", "wraparound=False",
+                            str(src), "-o", str(csrc)], capture_output=True, text=True)
         if r.returncode != 0:
             raise common.HarnessError(f"cython failed for {rel}: {r.stderr[-800:]}")
         cmd = ["gcc", "-shared", "-fPIC", "-O1", f"-I{inc}", str(csrc), "-o", str(out)]
@@ -59,18 +61,49 @@ def load(modname):
     path = _build(modname)
     spec = importlib.util.spec_from_file_location(modname, str(path))
     mod = importlib.util.module_from_spec(spec)
-    spec.loader.exec_module(mod)
-    sys.modules[modname] = mod
+    sys.modules[modname] = mod          # before exec: circular imports must resolve to this copy
+    try:
+        spec.loader.exec_module(mod)
+    except BaseException:
+        sys.modules.pop(modname, None)
+        raise
     parent = sys.modules.get(modname.rsplit(".", 1)[0])
     if parent is not None:
         setattr(parent, modname.rsplit(".", 1)[1], mod)
     return mod
 
 
+class _OverlayFinder:
+    """meta-path finder: the compiled modules come from /verif/.build/ext (built from the
+    working tree), everything else from the normal path."""
+
+    def __init__(self, paths):
+        self.paths = paths
+
+    def find_spec(self, fullname, path=None, target=None):
+        p = self.paths.get(fullname)
+        if p is None:
+            return None
+        return importlib.util.spec_from_file_location(fullname, str(p))
+
+
+def overlay_all():
+    """make every compiled module come from the working tree's sources. Must run before
+    anything imports them (call it first in a fresh process)."""
+    paths = {}
+    for m in MODULES:
+        if m in sys.modules and not str(getattr(sys.modules[m], "__file__", "")).startswith(str(EXT)):
+            raise common.HarnessError(f"{m} was imported before the working-tree overlay was installed")
+        paths[m] = _build(m)
+    if not any(isinstance(f, _OverlayFinder) for f in sys.meta_path):
+        sys.meta_path.insert(0, _OverlayFinder(paths))
+    return {m: str(p) for m, p in paths.items()}
+
+
 def use_working_tree_scanner():
     """make utoken.scan use _uscan compiled from the working tree's _uscan.cc."""
-    mod = load("mwlib.parser.token._uscan")
+    overlay_all()
     from mwlib.parser.token import utoken
 
-    utoken._mwscan = mod
-    return mod
+    assert str(utoken._mwscan.__file__).startswith(str(EXT)), utoken._mwscan.__file__
+    return utoken._mwscan
